@@ -4,6 +4,8 @@ PROP = {
     "jobs": [
         {"component": "net", "comp_num": 70, "quick": 320, "thorough": 20000, "args": ["--stream", "3"], "timeout": 3000},
         {"component": "endpoint", "comp_num": 7, "quick": 800, "thorough": 40000, "timeout": 3000},
+        # the exchanged timeout (C06_timeout_announced is about Wire.timeout_millis): handshake/Hello encodings incl. sub-millisecond timeouts
+        {"component": "codec", "comp_num": 9, "quick": 1500, "thorough": 60000},
     ],
     "design_ref": "DESIGN.md section 5, C06",
     "level_text": "Theorems (Coq, closed under the global context): an ended dispatcher (protocol/reset error caused by any received message, or "
@@ -19,7 +21,7 @@ PROP = {
     "level_note": "PARTIAL at the proof level: the theorems cover the dispatcher/endpoint and port state machines; the wake-up of every waiter kind "
                   "(recv on a closed per-port queue, accept on a closed listener queue, event-queue senders) rests on the assumed semantics of Tokio "
                   "channels (closed channel => error) and is exercised, not proved, by the fault stream. Wall-clock behaviour, OS sockets and Tokio's "
-                  "1 ms timer resolution are outside the model (the idle stream uses timeouts >= 5 ms). Typed-channel and RPC error translation is "
+                  "1 ms timer resolution are outside the model (the idle stream uses timeouts >= 5 ms); sub-millisecond timeouts are therefore tied differently: the announced value by the codec differential (Hello bytes for sub-millisecond durations), the locally enforced minimum and the peer's ping divisor by generated facts read from ChMux::run (LOCAL_TIMEOUT_MIN_MS, PING_DIVISOR), on which C06_idle_never_times_out depends. Typed-channel and RPC error translation is "
                   "covered by the checks of C04/C12/C15/C18 remote streams, not here.",
     "trivial_sig": r"malformed",
     "rule": "net stream 3: random Cfg pairs and timeouts (1 ms .. 60 s, plus sub-millisecond ones), a workload with four kinds of pending operations, "
